@@ -256,7 +256,7 @@ def listtbl_jobs(tier):
     X = tier == "thorough"
     jobs = []
     for opt in range(16):
-        jobs.append(Job("listtbl-opt%02d" % opt, H, [opt, 5 if X else 3, 4 if X else 3], wraps=VA_WRAPS, weight=30 if X else 4))
+        jobs.append(Job("listtbl-opt%02d" % opt, H, [opt, 5 if X else 4, 4 if X else 3], wraps=VA_WRAPS, weight=30 if X else 4))
     for opt in (0, 15) if not X else (0, 5, 10, 15):
         jobs.append(Job("listtbl-values-opt%02d" % opt, H, ["values", opt], wraps=VA_WRAPS, weight=6))
     return jobs
@@ -275,6 +275,83 @@ def listtbl_jobs(tier):
       classes=["multimap:*", "saveload:*", "list:*"])
 def c08(tier, seed):
     return listtbl_jobs(tier)
+
+
+def list_jobs(tier):
+    X = tier == "thorough"
+    jobs = [Job("list-L%d" % (6 if X else 5), ["seqmc/list.c"], [6 if X else 5], wraps=VA_WRAPS, weight=30)]
+    for kind in ("queue", "stack", "grow"):
+        jobs.append(Job("%s-L%d" % (kind, 6 if X else 5), ["seqmc/qsg.c"], [kind, 6 if X else 5], wraps=VA_WRAPS, weight=10))
+    return jobs
+
+
+@prop("C09", "model_checking",
+      "BFS closure of every qlist state of length <= 5 (thorough 6) over elements {x, y\\0, a\\0b, \\0} and size limits "
+      "0..3: addfirst/addlast, addat / popat / removeat for every index in [-n-2, n+2] and the first/last variants, reverse, "
+      "clear, setsize; after every transition getat of every index in [-n-2, n+2] (both newmem), getfirst/getlast, size, "
+      "datasize, toarray, tostring, getnext walks, link structure, and 'refused => nothing changed'. Queue, stack and grow "
+      "buffer: the same search through push/pushstr/pushint, pop/popstr/popint/popat, get*/getat, setsize, clear and "
+      "add/addstr/addstrf, toarray, tostring, size, datasize, clear (FIFO / LIFO / concatenation models)",
+      ["sequence models in engines/seqmc/list.c and qsg.c"],
+      [need("states", 1000), forbid("replay_divergence")], classes=["seq:*"])
+def c09(tier, seed):
+    return list_jobs(tier)
+
+
+def vector_jobs(tier):
+    X = tier == "thorough"
+    jobs = []
+    sizes = [1, 2, 3, 4, 7, 8, 16, 64] if X else [1, 3, 8]
+    for cap in range(4):
+        for osz in sizes:
+            for pol in range(3):
+                jobs.append(Job("vector-c%d-s%d-p%d" % (cap, osz, pol), ["seqmc/vector.c"], [cap, osz, pol, 4 if X else 3], wraps=VA_WRAPS, weight=4 if X else 1))
+    return jobs
+
+
+@prop("C10", "model_checking",
+      "for initial capacity 0..3 x element size {1,3,8} (thorough {1,2,3,4,7,8,16,64}) x growth policy exact/linear/double: "
+      "BFS closure of every vector state of <= 3 (4) elements over 3 element values (one all-zero): addfirst/addlast, "
+      "addat/setat/popat/removeat for every index in [-n-2, n+2] and the first/last variants, reverse, resize(0..n+2), clear; "
+      "after every transition getat of every index (both newmem), getfirst/getlast, size, toarray, getnext walks, "
+      "capacity >= count, errno of refusals, 'refused => unchanged'. Canonical state = (capacity, contents)",
+      ["array model in engines/seqmc/vector.c; the model does not predict the capacity, only capacity >= count"],
+      [need("states", 1000), need("capacity_growths", 100), need("resize_to_zero", 100), forbid("replay_divergence")], classes=["array:*"])
+def c10(tier, seed):
+    return vector_jobs(tier)
+
+
+def all_container_jobs(tier):
+    jobs = tree_jobs(tier, "all") + hashtbl_jobs(tier) + listtbl_jobs(tier) + list_jobs(tier) + vector_jobs(tier)
+    if "hasharr_jobs" in globals():
+        jobs += hasharr_jobs(tier)
+    return jobs
+
+
+@prop("C11", "model_checking",
+      "the complete C01-C10 searches (every reachable container state over the bounded universes, every operation from every "
+      "state) executed on an ASan+UBSan build with -fno-builtin (memcpy overlap is checked), all caller data in exactly-sized "
+      "heap blocks; oracle: zero sanitizer reports on any transition, live-block ledger (--wrap of malloc/calloc/realloc/"
+      "strdup/free) back to its start value after free() of the container at the end of every replayed history, static hash "
+      "table region exactly sized and fenced by guard zones",
+      ["UBSan alignment and nonnull-attribute checks are disabled (MurmurHash3 word loads; memcpy(p, NULL, 0) idiom)"],
+      [need("states", 10000), forbid("replay_divergence")], classes=["asan:*", "leak:*", "guard:*"])
+def c11(tier, seed):
+    return all_container_jobs(tier)
+
+
+@prop("C12", "model_checking",
+      "the complete C01-C10 searches in ownership mode: every key/value handed to put/add/push/set lives in a fresh exactly-"
+      "sized heap block that is overwritten with 0xA5 and freed the moment the call returns; every pointer obtained with the "
+      "copy flag, from pop*, find_min/max, find_nearest(newmem), getnext(newmem), getmulti(newmem), toarray/tostring and the "
+      "static hash table's get*/getnext is parked with its expected bytes, re-verified while the container is alive and "
+      "again after the container has been freed, then freed by the harness; values include embedded/trailing NULs and an "
+      "all-zero element. Wrong bytes on a later read (aliasing) are caught by the functional oracles of the same search",
+      ["use-after-free of an aliased caller buffer is reported by ASan as well"],
+      [need("copies_verified", 100000), need("inputs_scribbled", 100000), forbid("replay_divergence")],
+      classes=["ownership:*", "asan:*use-after-free*", "asan:*double-free*", "asan:*bad-free*", "map:get-value", "map:get-missing", "multimap:get-first-match", "seq:get-value", "array:get-value", "seq:content", "array:content", "image:get-value", "walk:value"])
+def c12(tier, seed):
+    return all_container_jobs(tier)
 
 NOT_YET = {}
 ENGINES = [
